@@ -427,9 +427,13 @@ def check_dispatch_passthrough(prog, rep, rule, pub, entry=None):
                 n += 1
                 rep.add(rule, pub, entry, 'backend argument %d = %s' % (i_, tshow(a_, 70)), pub.node.lineno, True, '')
                 continue
+            # the rasters are also what the backend is selected on (`mapper(agg)`): a DataArray method applied to one of them
+            # before `.data` is taken (`agg.where(agg != void).data`) changes the cells just the same
+            sel = {y[1] for y in twalk(d_[1][2][0]) if isinstance(y, tuple) and len(y) == 2 and y[0] == 'param' and isinstance(y[1], str)}
             hits = [x for x in twalk(a_) if isinstance(x, tuple) and len(x) >= 3 and x[0] == 'call' and
                     str(x[1] if not isinstance(x[1], tuple) else x[1][-1]).split('.')[-1] in VALUE_CHANGERS and
-                    any(isinstance(y, tuple) and len(y) == 2 and y[0] == 'data' and isinstance(y[1], tuple) and y[1][0] == 'param' for y in twalk(x))]
+                    any(isinstance(y, tuple) and len(y) == 2 and ((y[0] == 'data' and isinstance(y[1], tuple) and y[1][0] == 'param') or
+                                                                  (y[0] == 'param' and y[1] in sel)) for y in twalk(x))]
             if hits:
                 n += 1
                 rep.add(rule, pub, entry, 'backend argument %d = %s' % (i_, tshow(a_, 70)), pub.node.lineno, False,
